@@ -257,22 +257,26 @@ def rand_textgrid(rng, hi=5.0, ntiers=(1, 5), nmax=5, labels=None, variants=True
     # reference event (negative)
     s0 = rng.choice([0.5, 1.25, -2.0]) if (variants and 0.30 <= r < 0.42) else 0.0
     prev_points = []
+    # tier names are free text: brackets, stars and question marks (units, speaker numbers) are characters like any other - also to
+    # code that happens to look names up through patterns
+    odd = rng.random() < 0.12
     for i in range(rng.randrange(*ntiers)):
-        kind, ents, lo, top, t = rand_tier(rng, "t%d" % i, hi, nmax, 0.3, labels, src, full_span=True, ties=0.1)
+        tname = "t%d" % i if not odd else ["f0 [Hz]", "speaker[1]", "a*b", "q?", "t[0-9]"][i % 5]
+        kind, ents, lo, top, t = rand_tier(rng, tname, hi, nmax, 0.3, labels, src, full_span=True, ties=0.1)
         if s0:
             ents = [tuple(x + s0 for x in e[:-1]) + (e[-1],) for e in ents]
-            t = make_tier(kind, "t%d" % i, ents, s0, hi + s0)
+            t = make_tier(kind, tname, ents, s0, hi + s0)
         if kind == "P":
             if prev_points and rng.random() < 0.4:
                 # two point tiers of one textgrid mark the same instants (a tone tier and a break-index tier, say)
                 shared = rng.sample(prev_points, rng.randrange(1, len(prev_points) + 1))
                 own = [e for e in ents if all(abs(e[0] - x) > 1e-6 for x in shared)]
                 ents = sorted(own + [(x, rng.choice(labels or ["a", "b", "c"])) for x in shared])
-                t = make_tier(kind, "t%d" % i, ents, s0, hi + s0)
+                t = make_tier(kind, tname, ents, s0, hi + s0)
             prev_points = sorted({e[0] for e in ents} | set(prev_points))[:8]
         if late:
             ents = [tuple(x + 0.5 for x in e[:-1]) + (e[-1],) for e in ents]
-            t = make_tier(kind, "t%d" % i, ents, 0.5, hi + 0.5)
+            t = make_tier(kind, tname, ents, 0.5, hi + 0.5)
         tg.addTier(t, reportingMode="silence")
         allents.extend((e[0], e[-2], "") for e in ents)
     if 0.12 <= r < 0.22:  # one tier narrower than the textgrid
